@@ -37,7 +37,7 @@
  "name": "tune_disable_uninit_bg_gdt",
  "props": ["C11"],
  "level": "U",
- "tier": "wip",
+ "tier": "quick",
  "tier_after_hooks": "quick",
  "harness": "h_disable_uninit_bg",
  "defines": ["CFG_FLAG=EXT4_FEATURE_RO_COMPAT_GDT_CSUM"],
@@ -66,7 +66,7 @@
  "name": "tune_disable_uninit_bg_mcsum",
  "props": ["C11"],
  "level": "U",
- "tier": "wip",
+ "tier": "quick",
  "tier_after_hooks": "quick",
  "harness": "h_disable_uninit_bg",
  "defines": ["CFG_FLAG=EXT4_FEATURE_RO_COMPAT_METADATA_CSUM"],
@@ -89,7 +89,7 @@
  "name": "tune_enable_uninit_bg",
  "props": ["C11"],
  "level": "U",
- "tier": "wip",
+ "tier": "quick",
  "tier_after_hooks": "quick",
  "harness": "h_enable_uninit_bg",
  "loop_contracts": true,
